@@ -635,6 +635,18 @@ impl<T: Transport, E: UtpEnvironment> Dispatcher<T, E> {
             remote,
             header: msg.header,
         };
+        // A copy of a SYN that is already connected or waiting for an acceptor is not another
+        // connection request: it must not take a second place in the queue, or be refused.
+        if self
+            .streams
+            .contains_key(&(remote, syn.header.connection_id + 1))
+            || self.accept_queue.syns.iter().any(|queued| {
+                queued.remote == remote && queued.header.connection_id == syn.header.connection_id
+            })
+        {
+            trace!(?remote, connection_id=?syn.header.connection_id, "duplicate SYN, ignoring");
+            return Ok(());
+        }
         while let Some(acceptor) = self.accept_queue.try_next_acceptor() {
             match self.match_syn_with_accept(syn, acceptor) {
                 MatchSynWithAccept::Matched => return Ok(()),
